@@ -43,6 +43,7 @@ def gen_case(rng, tier):
     prof["prethread"] = rng.choice([0, 0, 0.3, 0.7])  # pre-existing partial threading
     prof["stale_links"] = rng.choice([0, 0, 0.5])
     prof["multiblock"] = rng.choice([0, 0, 0.5])  # a function of several blocks (cf.cond_br / cf.br)
+    prof["annotated_ifs"] = rng.choice([0, 0, 0.4])  # conditionals that carry accfg.effects = full themselves
     prof["switches"] = rng.choice([0, 0, 0.4])  # two-way branches written as scf.index_switch
     prof["const_conds"] = rng.random() < 0.3  # conditionals whose condition is a constant (true / false)
     prof["partial"] = rng.choice([0, 0, 0.4])  # setups that only write some of the fields
